@@ -14,7 +14,8 @@ class Grammar(qc.QGrammar):
         # q0 = the serial queue under test: custom serial, or the main queue (drained by dispatch_main)
         if h[10] % 5 == 0:
             P.queue(0, 3, chain=0)
-            P.features.add("main-queue")
+            P.cfg["mainloop"] = (h[10] // 5) % 2       # 1: the main queue stays thread-bound and is serviced run-loop style (_dispatch_main_queue_callback_4CF)
+            P.features.add("main-queue-runloop" if P.cfg["mainloop"] else "main-queue")
         else:
             P.queue(0, 0, qos=[0, 0, 2, 4][h[11] % 4], chain=0)
             P.features.add("custom-serial")
@@ -27,7 +28,7 @@ class Check(E3Check):
     prop = "C02"
     rule = ("Hypothesis draws a recipe (16 header bytes + per-thread op tuples + body pool); a deterministic compiler turns it into a sound client "
             "program: 1-4 threads issuing async/sync/barrier_sync/barrier_async/async_and_wait (block and _f forms), awaits, nested asyncs and balanced suspend/resume pairs (from threads and from items) on ONE serial "
-            "queue (custom, or the main queue under dispatch_main), executed by the dvm executor under a harness-owned schedule (SCHED_FIFO on one CPU with "
+            "queue (custom, or the main queue: drained by workers after dispatch_main(), or kept bound to the main thread and serviced run-loop style through _dispatch_main_queue_callback_4CF), executed by the dvm executor under a harness-owned schedule (SCHED_FIFO on one CPU with "
             "seeded yields at the library's atomics; one worker runs multi-core). A case is non-trivial when >= 2 threads submitted, at least one synchronous "
             "submission was called while another item of the queue was pending or running (waiter path) and at least one while none was (fast path); "
             "distinct = distinct program texts (program + perturbation plan).")
